@@ -158,6 +158,44 @@ theorem int_concat_str (s : Bytes) (i : I64) (w1 w2 : Bool) :
     binop "+" ⟨w1, .int i⟩ ⟨w2, .str s⟩ = .ok (.str (intToBytes i ++ s)) := by
   simp [binop, RV.unwrap, addOp, precedenceOfKinds, Val.kind, toStr, sprint]
 
+/-- ... also when the string is EMPTY: the result is the decimal spelling as a string, never the number itself -/
+theorem empty_str_concat_int (i : I64) (w1 w2 : Bool) :
+    binop "+" ⟨w1, .str []⟩ ⟨w2, .int i⟩ = .ok (.str (intToBytes i)) ∧
+    binop "+" ⟨w1, .int i⟩ ⟨w2, .str []⟩ = .ok (.str (intToBytes i)) := by
+  constructor
+  · simpa using str_concat_int [] i w1 w2
+  · simpa using int_concat_str [] i w1 w2
+
+omit [FOps] in
+/-- A string operand that is a run of decimal digits counts as that DECIMAL number, leading zeros or not: a
+leading `0` does not change the value (it is no octal marker). -/
+theorem zero_padded_digit_string_is_decimal (d : UInt8) (ds : Bytes)
+    (hd : isDigit d = true) (hds : ds.all isDigit = true) :
+    strToInt (48 :: d :: ds) = parseDec (d :: ds) := by
+  have hd' : 48 ≤ d ∧ d ≤ 57 := by simpa [isDigit] using hd
+  have hx : d ≠ 120 ∧ d ≠ 98 ∧ d ≠ 45 ∧ d ≠ 43 := by
+    refine ⟨?_, ?_, ?_, ?_⟩ <;> intro h <;> subst h <;> revert hd <;> decide
+  have hs0 : splitSign (48 :: d :: ds) = (false, 48 :: d :: ds) := by simp [splitSign]
+  have hs1 : splitSign (d :: ds) = (false, d :: ds) := by
+    unfold splitSign
+    split
+    · rename_i r h; simp at h; exact absurd h.1 hx.2.2.1
+    · rename_i r h; simp at h; exact absurd h.1 hx.2.2.2
+    · rfl
+  have h48 : isDigit 48 = true := by decide
+  have hv : digitsVal (48 :: d :: ds) 0 = digitsVal (d :: ds) 0 := by simp [digitsVal]
+  unfold strToInt
+  have p1 : hasPrefix [48, 120] (48 :: d :: ds) = false := by
+    simp [hasPrefix, List.isPrefixOf, Ne.symm hx.1]
+  have p2 : hasPrefix [48, 98] (48 :: d :: ds) = false := by
+    simp [hasPrefix, List.isPrefixOf, Ne.symm hx.2.1]
+  simp only [p1, p2, Bool.false_eq_true, if_false]
+  unfold parseDec
+  simp only [hs0, hs1, hv]
+  simp [List.all_cons, h48, hd, hds]
+
+example : strToInt [48, 49, 48] = some 10#64 := by decide   -- "010" is ten, not eight
+
 omit [FOps] in
 theorem repeatBytes_length (s : Bytes) (n : Nat) : (repeatBytes s n).length = n * s.length := by
   induction n with
